@@ -167,12 +167,13 @@ def run(s):
             one = SymArr((env.ntv,), lambda i: z3.RealVal(1))
             spf = (one / (c * env.e0 * env.e1), (one / (3 * env.e0), one / (3 * env.e1)), one / (c * env.e0 * env.e1))
             for nm, sel in (("0", lambda x: x[0]), ("1_0", lambda x: x[1][0]), ("1_1", lambda x: x[1][1]), ("2", lambda x: x[2])):
-                arrays("C01.%s.prefactors[%s]" % (kind, nm), lambda sel=sel, obj=obj: sel(obj.prefactors), sel(spf), base,
+                # the longitudinal class is specified for e_i = e_j only (c_ii involves one strain fraction; tasks.py hands the same column over twice)
+                arrays("C01.%s.prefactors[%s]" % (kind, nm), lambda sel=sel, obj=obj: sel(obj.prefactors), sel(spf), F(kind),
                        [MOD + cls + ".prefactors"])
             obj2 = env.make(kind)
             preset(obj2, prefactors=spf)
             for nm, sel in (("0", lambda x: x[0]), ("1_0", lambda x: x[1][0]), ("1_1", lambda x: x[1][1]), ("2", lambda x: x[2])):
-                arrays("C01.%s.mode_gamma[%s]" % (kind, nm), lambda sel=sel, obj2=obj2: sel(obj2.mode_gamma), sel(sp), base,
+                arrays("C01.%s.mode_gamma[%s]" % (kind, nm), lambda sel=sel, obj2=obj2: sel(obj2.mode_gamma), sel(sp), F(kind),
                        [MOD + cls + ".mode_gamma"])
 
         # ---------------- 3. Bose factors
